@@ -118,7 +118,8 @@ impl<R: DynamicChannelRegion> RegionHandler for DynamicChannelPlan<R> {
                     // unused channels are set to 0
                     if value == 0 {
                         self.channels[index] = None;
-                    } else {
+                    } else if self.frequency_valid(value) {
+                        // frequencies outside of the band are ignored
                         self.channels[index] = Some(Channel::new(value, DR::_0, DR::_5));
                     }
                 }
